@@ -42,9 +42,9 @@ NEAR_BINS = [(0.0, "0"), (1e-12, "<=1e-12"), (1e-9, "<=1e-9"), (1e-6, "<=1e-6"),
 def near_one(rng):
     """a gradient at 1, one or a few ulps beside it, or 1e-15 .. 1e-2 away from it (either side)"""
     r = rng.random()
-    if r < 0.12:
+    if r < 0.18:
         return 1.0
-    if r < 0.27:
+    if r < 0.36:
         return rng.choice([1.0 + 2.0 ** -52, 1.0 - 2.0 ** -53, 1.0 + 2.0 ** -50, 1.0 - 2.0 ** -51])
     return 1.0 + rng.choice([-1.0, 1.0]) * 10.0 ** rng.uniform(-15, -2)
 
@@ -52,10 +52,10 @@ def near_one(rng):
 def near_zero(rng, scale):
     """an intercept at 0, at the bottom of the float range, small against the data scale, or small absolutely"""
     r = rng.random()
-    if r < 0.12:
+    if r < 0.18:
         return 0.0
     s = rng.choice([-1.0, 1.0, 1.0])
-    if r < 0.22:
+    if r < 0.3:
         return s * rng.choice([5e-324, 2.2250738585072014e-308, 1e-300, 1e-100, 1e-30])
     if r < 0.6:
         return s * scale * 10.0 ** rng.uniform(-12, -1)
